@@ -131,7 +131,7 @@ theorem fwd_ingress (macf : MacF) (ts beta0 : Nat) (es : List Entry) (k : Nat) (
 
 
 theorem fwd_egress (macf : MacF) (ts beta0 : Nat) (es : List Entry) (k : Nat) (e : Entry)
-    (he : es[k]? = some e) (hnl : k + 1 < es.length) (c : VCtx)
+    (he : es[k]? = some e) (hnl : k + 1 < es.length) (hmax : es.length ≤ MAX_TOTAL_HOPS + 1) (c : VCtx)
     (hkey : c.key = e.key) (hign : c.ignoreMacs = false) (hin : c.ingress = false)
     (hcur : c.curIf = e.consEgress) (hts : ts ≤ c.now)
     (hexp : c.now ≤ expiryTs (hopOf macf ts (betaAt macf ts beta0 es k) e) ⟨true, false, betaAt macf ts beta0 es k, ts⟩) :
@@ -159,13 +159,15 @@ theorem fwd_egress (macf : MacF) (ts beta0 : Nat) (es : List Entry) (k : Nat) (e
   have hnf : ¬ (fwdPath macf ts beta0 es k).currHf + 1 ≥ (fwdPath macf ts beta0 es k).hopCount := by
     simp [fwdPath, Path.hopCount]; omega
   have hne : (k + 1 == es.length) = false := by simp; omega
+  have hmx : ¬ (fwdPath macf ts beta0 es k).currHf + 1 > MAX_TOTAL_HOPS := by
+    simp only [fwdPath]; omega
   have halert : (hopOf macf ts (betaAt macf ts beta0 es k) e).egressAlert true = false := by
     simp [Hop.egressAlert, hopOf]
   have heg : ∀ s, (hopOf macf ts (betaAt macf ts beta0 es k) e).egressIf ⟨true, false, s, ts⟩ = e.consEgress := by
     intro s; simp [Hop.egressIf, hopOf]
   have hs1 := setAt_same _ _ _ hh
   have hb := betaAt_succ macf ts beta0 es k e he
-  simp only [hnf, hne, Bool.false_eq_true, ↓reduceIte, hval, halert, hs1, heg]
+  simp only [hnf, hmx, hne, Bool.false_eq_true, ↓reduceIte, hval, halert, hs1, heg]
   simp [fwdPath, setAt, hb]
 
 
@@ -175,7 +177,7 @@ def Timely (macf : MacF) (ts beta0 now : Nat) (es : List Entry) : Prop :=
     now ≤ expiryTs (hopOf macf ts (betaAt macf ts beta0 es k) e) ⟨true, false, betaAt macf ts beta0 es k, ts⟩
 
 theorem fwd_route_step (macf : MacF) (ts beta0 : Nat) (es : List Entry) (k : Nat) (e : Entry)
-    (hn : 2 ≤ es.length) (he : es[k]? = some e) (hnl : k + 1 < es.length)
+    (hn : 2 ≤ es.length) (he : es[k]? = some e) (hnl : k + 1 < es.length) (hmax : es.length ≤ MAX_TOTAL_HOPS + 1)
     (dst curIf now : Nat) (lookup : Nat → Option IfState) (st : IfState)
     (hcur : curIf = 0 ∨ curIf = e.consIngress)
     (hl : lookup e.consEgress = some st) (hup : st.up = true)
@@ -191,7 +193,7 @@ theorem fwd_route_step (macf : MacF) (ts beta0 : Nat) (es : List Entry) (k : Nat
       some ⟨true, false, betaAt macf ts beta0 es k, ts⟩ := by simp [fwdPath]
   rw [hi]
   simp only [hl, hup, Bool.not_true, Bool.false_eq_true, ↓reduceIte]
-  rw [fwd_egress macf ts beta0 es k e he hnl _ rfl rfl rfl rfl htm.1 (htm.2 k e he)]
+  rw [fwd_egress macf ts beta0 es k e he hnl hmax _ rfl rfl rfl rfl htm.1 (htm.2 k e he)]
   simp
 
 theorem fwd_route_last (macf : MacF) (ts beta0 : Nat) (es : List Entry) (k : Nat) (e : Entry)
@@ -217,7 +219,7 @@ structure ChainOK (t : Topo) (es : List Entry) : Prop where
       e.consEgress ≠ 0
 
 theorem fwd_walk (macf : MacF) (t : Topo) (ts beta0 now : Nat) (es : List Entry) (dst : Nat)
-    (hn : 2 ≤ es.length) (hc : ChainOK t es) (htm : Timely macf ts beta0 now es)
+    (hn : 2 ≤ es.length) (hmax : es.length ≤ MAX_TOTAL_HOPS + 1) (hc : ChainOK t es) (htm : Timely macf ts beta0 now es)
     (hdst : ∀ e, es[es.length - 1]? = some e → e.ia = dst) :
     ∀ (j k : Nat) (e : Entry) (curIf steps fuel : Nat), k + j + 1 = es.length → es[k]? = some e →
       (curIf = 0 ∨ curIf = e.consIngress) → j + 1 ≤ fuel →
@@ -251,7 +253,7 @@ theorem fwd_walk (macf : MacF) (t : Topo) (ts beta0 now : Nat) (es : List Entry)
       simp only [ha]
       have hlook : t.lookup e.ia e.consEgress = some ⟨roleToLinkType l.role, l.up⟩ := by
         simp [Topo.lookup, hl]
-      rw [hkey, fwd_route_step macf ts beta0 es k e hn he hk1 dst curIf now _ _ hcur hlook hup htm]
+      rw [hkey, fwd_route_step macf ts beta0 es k e hn he hk1 hmax dst curIf now _ _ hcur hlook hup htm]
       simp only [hl, hpa, hb, hbe, Bool.false_eq_true, ↓reduceIte]
       rw [hpi, ih (k + 1) e' e'.consIngress (steps + 1) fuel (by omega) he' (Or.inr rfl) (by omega)]
       simp; omega
@@ -349,7 +351,7 @@ theorem rev_ingress (macf : MacF) (ts beta0 : Nat) (es : List Entry) (j : Nat) (
 
 
 theorem rev_egress (macf : MacF) (ts beta0 : Nat) (es : List Entry) (j : Nat) (e : Entry)
-    (hnl : j + 1 < es.length) (he : es[es.length - 1 - j]? = some e) (c : VCtx)
+    (hnl : j + 1 < es.length) (hmax : es.length ≤ MAX_TOTAL_HOPS + 1) (he : es[es.length - 1 - j]? = some e) (c : VCtx)
     (hkey : c.key = e.key) (hign : c.ignoreMacs = false) (hin : c.ingress = false)
     (hcur : c.curIf = e.consIngress) (hts : ts ≤ c.now)
     (hexp : c.now ≤ expiryTs (hopOf macf ts (betaAt macf ts beta0 es (es.length - 1 - j)) e)
@@ -380,14 +382,16 @@ theorem rev_egress (macf : MacF) (ts beta0 : Nat) (es : List Entry) (j : Nat) (e
   have hnf : ¬ (revPath macf ts beta0 es j b).currHf + 1 ≥ (revPath macf ts beta0 es j b).hopCount := by
     simp [revPath, Path.hopCount]; omega
   have hne : (j + 1 == es.length) = false := by simp; omega
+  have hmx : ¬ (revPath macf ts beta0 es j b).currHf + 1 > MAX_TOTAL_HOPS := by
+    simp only [revPath]; omega
   have halert : (hopOf macf ts b e).egressAlert false = false := by simp [Hop.egressAlert, hopOf]
   have heg : (hopOf macf ts b e).egressIf ⟨false, false, b, ts⟩ = e.consIngress := by simp [Hop.egressIf, hopOf]
   have hs1 := setAt_same _ _ _ hh
-  simp only [hnf, hne, Bool.false_eq_true, ↓reduceIte, hval, halert, hs1, heg]
+  simp only [hnf, hmx, hne, Bool.false_eq_true, ↓reduceIte, hval, halert, hs1, heg]
   simp [revPath, setAt]
 
 theorem rev_route_step (macf : MacF) (ts beta0 : Nat) (es : List Entry) (j : Nat) (e : Entry) (sid : Nat)
-    (hn : 2 ≤ es.length) (hnl : j + 1 < es.length) (he : es[es.length - 1 - j]? = some e)
+    (hn : 2 ≤ es.length) (hnl : j + 1 < es.length) (hmax : es.length ≤ MAX_TOTAL_HOPS + 1) (he : es[es.length - 1 - j]? = some e)
     (dst curIf now : Nat) (lookup : Nat → Option IfState) (st : IfState)
     (hcur : curIf = 0 ∨ curIf = e.consEgress)
     (hsid : (if curIf == 0 then sid else betaStep sid (hopOf macf ts (betaAt macf ts beta0 es (es.length - 1 - j)) e).mac) =
@@ -405,7 +409,7 @@ theorem rev_route_step (macf : MacF) (ts beta0 : Nat) (es : List Entry) (j : Nat
       some ⟨false, false, b, ts⟩ := by intro b; simp [revPath]
   rw [hi]
   simp only [hl, hup, Bool.not_true, Bool.false_eq_true, ↓reduceIte]
-  rw [rev_egress macf ts beta0 es j e hnl he _ rfl rfl rfl rfl htm.1 (htm.2 _ e he)]
+  rw [rev_egress macf ts beta0 es j e hnl hmax he _ rfl rfl rfl rfl htm.1 (htm.2 _ e he)]
   simp
 
 theorem rev_route_last (macf : MacF) (ts beta0 : Nat) (es : List Entry) (j : Nat) (e : Entry) (sid : Nat)
@@ -424,7 +428,7 @@ theorem rev_route_last (macf : MacF) (ts beta0 : Nat) (es : List Entry) (j : Nat
 
 
 theorem rev_walk (macf : MacF) (t : Topo) (ts beta0 now : Nat) (es : List Entry) (dst : Nat)
-    (hn : 2 ≤ es.length) (hc : ChainOK t es) (htm : Timely macf ts beta0 now es)
+    (hn : 2 ≤ es.length) (hmax : es.length ≤ MAX_TOTAL_HOPS + 1) (hc : ChainOK t es) (htm : Timely macf ts beta0 now es)
     (hdst : ∀ e, es[0]? = some e → e.ia = dst) :
     ∀ (r j : Nat) (e : Entry) (sid curIf steps fuel : Nat), j + r + 1 = es.length →
       es[es.length - 1 - j]? = some e → (curIf = 0 ∨ curIf = e.consEgress) →
@@ -464,7 +468,7 @@ theorem rev_walk (macf : MacF) (t : Topo) (ts beta0 now : Nat) (es : List Entry)
       simp only [ha]
       have hlook : t.lookup e.ia e.consIngress = some ⟨roleToLinkType l.role, l.up⟩ := by
         simp [Topo.lookup, hl]
-      rw [hkey, rev_route_step macf ts beta0 es j e sid hn (by omega) he dst curIf now _ _ hcur hsid hlook hup htm]
+      rw [hkey, rev_route_step macf ts beta0 es j e sid hn (by omega) hmax he dst curIf now _ _ hcur hsid hlook hup htm]
       simp only [hl, hpa, hb, hbe, Bool.false_eq_true, ↓reduceIte]
       have hidx : es.length - 1 - (j + 1) = es.length - 2 - j := by omega
       have hstep := betaAt_succ macf ts beta0 es (es.length - 2 - j) e' he'
